@@ -504,7 +504,7 @@ func runPubfan(t *testing.T, sched simrt.Schedule, prog pfProg) ([]Violation, Ru
 		}
 		if prog.Suspend >= 0 && sc.Root >= 0 {
 			rc := w.clientsOf(sc.Root)[0]
-			w.runPhase(map[int][]*Op{rc.Idx: {opMsg(&ClientComMessage{Acc: &MsgClientAcc{User: fmt.Sprintf("@usr%d", prog.Suspend), State: "suspended"}})}})
+			w.runPhase(map[int][]*Op{rc.Idx: {opMsg(&ClientComMessage{Acc: &MsgClientAcc{User: fmt.Sprintf("@usr%d", prog.Suspend), State: "susp"}})}})
 		} else {
 			w.settle()
 		}
